@@ -16,7 +16,7 @@ import (
 )
 
 // keys whose values survive a JSON round trip (no duplicate names among them)
-var c09Keys = []int{0, 2, 15, 24, 14, 22, 26, 13, 4, 12, 21, 23, 16, 7}
+var c09Keys = []int{0, 2, 15, 24, 14, 22, 26, 13, 4, 12, 21, 23, 16, 7, 28}
 
 const keyLogLevel = 40
 const keyHTTPStatus = 41
